@@ -383,3 +383,99 @@ def materialise(ds, workdir, qha_settings, **kw):
     path = os.path.join(workdir, "settings." + ext)
     cfg = write_settings(path, ds, qha_settings, **kw)
     return path, cfg
+
+
+# ----------------------------------------------------------------------------------------------------
+# shipped examples, read with an own minimal parser (so that they can be re-presented by the own writers)
+
+class ExampleDataset:
+    """Duck-type of Dataset for the writers, filled from examples/<name>/ of the repository under test."""
+
+    def __init__(self, name, repo=None):
+        import re
+        import yaml
+        from . import REPO
+        base = os.path.join(repo or REPO, "examples", name)
+        self.name = name
+        with open(os.path.join(base, "settings.yaml")) as fp:
+            self.settings = yaml.safe_load(fp)
+        f1 = os.path.join(base, self.settings["qha"]["input"])
+        f2 = os.path.join(base, self.settings["elast"]["input"])
+        lines = open(f1).read().splitlines()
+        i = 0
+        while not re.fullmatch(r"\s*\d+\s+\d+\s+\d+\s+\d+\s+\d+\s*", lines[i]):
+            i += 1
+        nv, nq, npm, nm, na = map(int, lines[i].split())
+        i += 1
+        vols, ens, freqs, qc = [], [], np.zeros((nv, nq, npm)), np.zeros((nq, 3))
+        num = r"[-+]?\d*\.?\d+(?:[eEdD][-+]?\d+)?"
+        for iv in range(nv):
+            while "=" not in lines[i]:
+                i += 1
+            vals = re.findall(r"=\s*(" + num + ")", lines[i])
+            vols.append(float(vals[1]))
+            ens.append(float(vals[2]))
+            i += 1
+            for iq in range(nq):
+                qc[iq] = [float(x) for x in lines[i].split()[:3]]
+                i += 1
+                for m in range(npm):
+                    freqs[iv, iq, m] = float(lines[i].split()[0])
+                    i += 1
+        while lines[i].strip().lower() not in ("weight", "weights"):
+            i += 1
+        i += 1
+        w = []
+        for iq in range(nq):
+            w.append(float(lines[i].split()[3]))
+            i += 1
+        self.nv, self.nq, self.npm, self.na, self.nm = nv, nq, npm, na, nm
+        self.volumes = np.array(vols)
+        self.energies = np.array(ens)
+        self._freqs = freqs
+        self.qcoords = qc
+        self.weights = np.array(w)
+        # static table
+        lines = [l for l in open(f2).read().splitlines()]
+        vref, n2, mass = lines[1].split()[:3]
+        self.vref = float(vref)
+        n2 = int(n2)
+        head = lines[2].split()
+        keys = []
+        for h in head[1:]:
+            dig = re.search(r"(\d+)$", h).group(1)
+            if len(dig) == 2:
+                k = tuple(sorted((int(dig[0]), int(dig[1]))))
+            else:
+                from .reftensor import canon
+                k = canon(*map(int, dig))
+            keys.append(k)
+        self.static_keys = keys
+        rows = [[float(x) for x in lines[3 + r].split()] for r in range(n2)]
+        self.static_volumes = np.array([r[0] for r in rows])
+        self.nv_static = n2
+        self.static_full = np.zeros((n2, 21))
+        for j, k in enumerate(keys):
+            self.static_full[:, KEYS21.index(k)] = [r[1 + j] for r in rows]
+        rest = [l for l in lines[3 + n2:] if l.strip()]
+        self._lattice = None
+        if len(rest) >= n2 + 1:
+            self._lattice = np.array([[float(x) for x in l.split()[:3]] for l in rest[1:1 + n2]])
+        sym = self.settings["elast"]["settings"].get("symmetry", {})
+        self.system = sym.get("system", "triclinic")
+        self.spec = {"cellmass": float(mass), "lattice": self._lattice is not None, "apply_system": "system" in sym,
+                     "system": self.system, "fmt": "yaml",
+                     "interpolator": self.settings["elast"]["settings"]["mode_gamma"]["interpolator"],
+                     "order": self.settings["elast"]["settings"]["mode_gamma"]["order"]}
+
+    def file_frequencies(self):
+        return self._freqs
+
+    def lattice(self, volumes):
+        return self._lattice
+
+    def qha_settings(self, nt=3, dt=300.0):
+        q = dict(self.settings["qha"]["settings"])
+        q.update({"NT": nt, "DT": dt, "DT_SAMPLE": dt, "T_MIN": 0})
+        q["DELTA_P_SAMPLE"] = q.get("DELTA_P", 1)
+        return q
